@@ -23,6 +23,9 @@ class Sim:
         self.k = K.Kernel(seed=seed, epoch=ep, workdir=self.dir)
         self.env = core.asan_env()
         self.srv_bin, self.cli_bin = simrun.binaries()
+        # memcheck pass: the (non-sanitized) programs run under valgrind, the first error ends the process with status 88
+        self.wrap = (["valgrind", "-q", "--error-exitcode=88", "--exit-on-first-error=yes", "--track-origins=no",
+                      "--partial-loads-ok=yes"] if simrun.memcheck() else [])
         self.domain = DOMAIN
         self.password = b"secret"
         self.tun_net = "10.9.0.1/24"
@@ -44,7 +47,7 @@ class Sim:
             self.domain = domain
         if password is not None:
             self.password = password
-        argv = [self.srv_bin, "-f"] + list(extra)
+        argv = self.wrap + [self.srv_bin, "-f"] + list(extra)
         env = {"IODINED_PASS": ""}
         if self.password and b"\0" not in self.password:
             argv += ["-P", self.password]
@@ -53,7 +56,7 @@ class Sim:
 
     def client(self, name, ip, nameserver, opts=(), password=None, domain=None):
         pw = self.password if password is None else password
-        argv = [self.cli_bin, "-f"] + list(opts) + ["-P", pw, nameserver, domain or self.domain]
+        argv = self.wrap + [self.cli_bin, "-f"] + list(opts) + ["-P", pw, nameserver, domain or self.domain]
         return self.k.spawn(name, "client", argv, [ip], env={"IODINE_PASS": ""}, san_env=self.env)
 
     def fault_relay(self, profile, ip=RELAY_IP, seed=0):
